@@ -35,3 +35,72 @@ type Purge struct {
 
 func (n *Purge) IsReadOnly() bool     { return true }
 func (n *Purge) Children() []sql.Node { return nil }
+
+// ---- R2c: child coverage of delegating IsReadOnly implementations
+
+type binary struct{ left, right sql.Node }
+
+func (b *binary) Left() sql.Node       { return b.left }
+func (b *binary) Right() sql.Node      { return b.right }
+func (b *binary) Children() []sql.Node { return []sql.Node{b.left, b.right} }
+
+// Union executes both sides but asks the right side twice (R2c defect on left).
+type Union struct{ binary }
+
+func (n *Union) IsReadOnly() bool { return n.right.IsReadOnly() && n.right.IsReadOnly() }
+
+// Concat is the good sibling: both sides conjoined through the children loop.
+type Concat struct{ binary }
+
+func (n *Concat) IsReadOnly() bool {
+	for _, c := range n.Children() {
+		if !c.IsReadOnly() {
+			return false
+		}
+	}
+	return true
+}
+
+// Seq is good: every statement is consulted, with a flag variable.
+type Seq struct{ Stmts []sql.Node }
+
+func (n *Seq) IsReadOnly() bool {
+	ro := true
+	for i := 0; i < len(n.Stmts); i++ {
+		if !n.Stmts[i].IsReadOnly() {
+			ro = false
+		}
+	}
+	return ro
+}
+func (n *Seq) Children() []sql.Node { return n.Stmts }
+
+// Any is read-only as soon as one statement is (R2c defect).
+type Any struct{ Stmts []sql.Node }
+
+func (n *Any) IsReadOnly() bool {
+	for _, s := range n.Stmts {
+		if s.IsReadOnly() {
+			return true
+		}
+	}
+	return false
+}
+func (n *Any) Children() []sql.Node { return n.Stmts }
+
+// Trig runs Logic for every row of Stmt from its iterator but only asks Stmt (R2c defect on Logic).
+type Trig struct{ Stmt, Logic sql.Node }
+
+func (n *Trig) IsReadOnly() bool     { return n.Stmt.IsReadOnly() }
+func (n *Trig) Children() []sql.Node { return []sql.Node{n.Stmt, n.Logic} }
+
+// Opt is good: the optional child is nil or consulted.
+type Opt struct{ Child sql.Node }
+
+func (n *Opt) IsReadOnly() bool {
+	if n.Child == nil {
+		return true
+	}
+	return n.Child.IsReadOnly()
+}
+func (n *Opt) Children() []sql.Node { return nil }
